@@ -1116,7 +1116,8 @@ func (d *Decoder) decodeTypeParameter(valueJSON any, results typeDecodingResults
 	// TODO: getOpt
 	var typeBound cadence.Type
 	typeBoundObj, ok := obj[typeBoundKey]
-	if ok {
+	// The encoder writes `"typeBound": null` for a type parameter without a bound.
+	if ok && typeBoundObj != nil {
 		d.pushPath(propertyPathElement(typeBoundKey))
 		typeBound = d.decodeType(typeBoundObj, results)
 		d.popPath()
